@@ -237,6 +237,9 @@ func (n *Net) describe(b []byte) string {
 
 // FrameDesc renders a tube frame header.
 func FrameDesc(b []byte) string {
+	if len(b) >= 10 && len(b) < 12 && b[1]&3 != 0 {
+		b = append(append([]byte(nil), b...), 0, 0)
+	}
 	if len(b) < 12 {
 		return fmt.Sprintf("short-frame(%d)", len(b))
 	}
